@@ -5,6 +5,7 @@
 //   profile:  "speed" | "memory"
 //   cparams:  {max_condition_depth, max_strings_per_rule, disable_includes, fail_on_warnings,
 //              parse_expression_recursion_limit, parse_string_recursion_limit}
+//   rules[i].expect_error: bool   the text must be refused; the compiler is used further
 //   csymbols: [{"name":..., "int":n | "bool":b | "bytes":hex | "float":f}]   compiler define_symbol
 //   params:   {compute_full_matches, match_max_length, string_max_nb_matches, include_not_matched,
 //              process_memory, max_fetched_region_size, memory_chunk_size, mode: "legacy"|"fast"|"single_pass",
@@ -147,6 +148,13 @@ pub fn add_rules(c: &mut Compiler, case: &Value) -> Result<(), String> {
                 None => c.add_rules_file(path),
             }
         };
+        // a text that the compiler must refuse (the compiler goes on being used afterwards)
+        if get_bool(r, "expect_error") {
+            if res.is_ok() {
+                return Err("a text meant to be refused was accepted".to_string());
+            }
+            continue;
+        }
         if let Err(e) = res {
             return Err(format!("{e}"));
         }
